@@ -207,6 +207,20 @@ struct BitField {
 struct Lambdaish {
     int operator()() { return 0; }
 };
+// copying from a non-const lvalue is noexcept, copying from a const one may throw: tells X<T&, T&> from X<T&, T const&>
+// and X<T, T&> from X<T, T const&> (mutants/C15/nothrow_copy_assignable_drops_const)
+struct CopyNonConstNothrow {
+    CopyNonConstNothrow() = default;
+    CopyNonConstNothrow(CopyNonConstNothrow&) noexcept;
+    CopyNonConstNothrow(CopyNonConstNothrow const&) noexcept(false);
+    CopyNonConstNothrow& operator=(CopyNonConstNothrow&) noexcept;
+    CopyNonConstNothrow& operator=(CopyNonConstNothrow const&) noexcept(false);
+};
+// move construction is noexcept, move assignment may throw, copies are deleted
+struct MoveCtorOnlyNothrowAssignThrows {
+    MoveCtorOnlyNothrowAssignThrows(MoveCtorOnlyNothrowAssignThrows&&) noexcept;
+    MoveCtorOnlyNothrowAssignThrows& operator=(MoveCtorOnlyNothrowAssignThrows&&) noexcept(false);
+};
 
 // ------------------------------------------------------------------ compositional spelling of the zoo types
 template <typename T> using C1 = T const;
@@ -355,9 +369,19 @@ static void put_bools(char const* const* names, bool const* vals, int n)
 #define C15_STD_C(t) std::t<T>,
 #define C15_ETL_T(t) &enc<etl::t##_t<T>>,
 #define C15_STD_T(t) &enc<std::t##_t<T>>,
+// the class-template forms `X<T>::value` / `typename X<T>::type`: many `_v` variables are written out independently of
+// their class template, so both forms are instantiated and printed (as `X::value` / `X::type`)
+#define C15_SNAME(t)  #t "::value",
+#define C15_TNAME(t)  #t "::type",
+#define C15_ETL_SV(t) etl::t<T>::value,
+#define C15_STD_SV(t) std::t<T>::value,
+#define C15_ETL_ST(t) &enc<typename etl::t<T>::type>,
+#define C15_STD_ST(t) &enc<typename std::t<T>::type>,
 
 static char const* const ubool_names[] = {C15_UBOOL(C15_NAME) C15_UCONCEPT(C15_NAME)};
 static char const* const utype_names[] = {C15_UTYPE(C15_NAME)};
+static char const* const ubool_snames[] = {C15_UBOOL(C15_SNAME)};
+static char const* const utype_snames[] = {C15_UTYPE(C15_TNAME)};
 
 template <typename T>
 struct URow {
@@ -367,6 +391,12 @@ struct URow {
     static constexpr unsigned long sn[] = {std::rank_v<T>, std::extent_v<T>, std::extent_v<T, 1>};
     static constexpr EncFn et[] = {C15_UTYPE(C15_ETL_T)};
     static constexpr EncFn st[] = {C15_UTYPE(C15_STD_T)};
+    static constexpr bool es[] = {C15_UBOOL(C15_ETL_SV)};
+    static constexpr bool ss[] = {C15_UBOOL(C15_STD_SV)};
+    static constexpr unsigned long ens[] = {etl::rank<T>::value, etl::extent<T>::value, etl::extent<T, 1>::value};
+    static constexpr unsigned long sns[] = {std::rank<T>::value, std::extent<T>::value, std::extent<T, 1>::value};
+    static constexpr EncFn ets[] = {C15_UTYPE(C15_ETL_ST)};
+    static constexpr EncFn sts[] = {C15_UTYPE(C15_STD_ST)};
 };
 
 template <template <typename> class Tr, typename T>
@@ -404,24 +434,35 @@ static void urow(int id)
     constexpr int nb = sizeof(Rw::e) / sizeof(bool);
     constexpr int nt = sizeof(Rw::et) / sizeof(EncFn);
     static char const* const nn[] = {"rank", "extent0", "extent1"};
+    static char const* const nns[] = {"rank::value", "extent0::value", "extent1::value"};
+    constexpr int nbs = sizeof(Rw::es) / sizeof(bool);
     std::printf("%d\t", id);
     put_bools(ubool_names, Rw::e, nb);
     for (int i = 0; i < 3; ++i) { std::printf(" %s=%lu", nn[i], Rw::en[i]); }
     for (int i = 0; i < nt; ++i) { std::printf(" %s=%s", utype_names[i], Rw::et[i]().c_str()); }
     put_restricted<etl::make_signed, etl::make_unsigned, etl::underlying_type, T, MFlags>();
+    std::printf(" ");
+    put_bools(ubool_snames, Rw::es, nbs);
+    for (int i = 0; i < 3; ++i) { std::printf(" %s=%lu", nns[i], Rw::ens[i]); }
+    for (int i = 0; i < nt; ++i) { std::printf(" %s=%s", utype_snames[i], Rw::ets[i]().c_str()); }
     std::printf("\t");
     put_bools(ubool_names, Rw::s, nb);
     for (int i = 0; i < 3; ++i) { std::printf(" %s=%lu", nn[i], Rw::sn[i]); }
     for (int i = 0; i < nt; ++i) { std::printf(" %s=%s", utype_names[i], Rw::st[i]().c_str()); }
     put_restricted<std::make_signed, std::make_unsigned, std::underlying_type, T, SFlags>();
+    std::printf(" ");
+    put_bools(ubool_snames, Rw::ss, nbs);
+    for (int i = 0; i < 3; ++i) { std::printf(" %s=%lu", nns[i], Rw::sns[i]); }
+    for (int i = 0; i < nt; ++i) { std::printf(" %s=%s", utype_snames[i], Rw::sts[i]().c_str()); }
     std::printf("\n");
 }
 
 template <typename T1, typename T2>
 static void brow(int id)
 {
-    std::printf("%d\tis_same=%d same_as=%d\tis_same=%d same_as=%d\n", id, etl::is_same_v<T1, T2> ? 1 : 0,
-        etl::same_as<T1, T2> ? 1 : 0, std::is_same_v<T1, T2> ? 1 : 0, std::same_as<T1, T2> ? 1 : 0);
+    std::printf("%d\tis_same=%d same_as=%d is_same::value=%d\tis_same=%d same_as=%d is_same::value=%d\n", id,
+        etl::is_same_v<T1, T2> ? 1 : 0, etl::same_as<T1, T2> ? 1 : 0, etl::is_same<T1, T2>::value ? 1 : 0,
+        std::is_same_v<T1, T2> ? 1 : 0, std::same_as<T1, T2> ? 1 : 0, std::is_same<T1, T2>::value ? 1 : 0);
 }
 
 // ---- (d) intrinsic-backed traits: etl vs std only -------------------------------------------------
@@ -453,13 +494,19 @@ template <typename T> using RR  = std::add_rvalue_reference_t<T>;
 #define C15_D2NAME(t, a, b) #t "<" #a "," #b ">",
 #define C15_D2ETL(t, a, b)  etl::t##_v<a, b>,
 #define C15_D2STD(t, a, b)  std::t##_v<a, b>,
+#define C15_D2SNAME(t, a, b) #t "<" #a "," #b ">::value",
+#define C15_D2SETL(t, a, b)  etl::t<a, b>::value,
+#define C15_D2SSTD(t, a, b)  std::t<a, b>::value,
 
 static char const* const dbool_names[] = {C15_DBOOL(C15_NAME) C15_DCONCEPT(C15_NAME) C15_D2(C15_D2NAME)};
+static char const* const dbool_snames[] = {C15_DBOOL(C15_SNAME) C15_D2(C15_D2SNAME)};
 
 template <typename T>
 struct DRow {
     static constexpr bool e[] = {C15_DBOOL(C15_ETL_V) C15_DCONCEPT(C15_ETL_C) C15_D2(C15_D2ETL)};
     static constexpr bool s[] = {C15_DBOOL(C15_STD_V) C15_DCONCEPT(C15_STD_C) C15_D2(C15_D2STD)};
+    static constexpr bool es[] = {C15_DBOOL(C15_ETL_SV) C15_D2(C15_D2SETL)};          // class-template forms
+    static constexpr bool ss[] = {C15_DBOOL(C15_STD_SV) C15_D2(C15_D2SSTD)};
 };
 
 template <typename T>
@@ -468,20 +515,29 @@ static void drow(int id)
     using Rw        = DRow<T>;
     constexpr int nb = sizeof(Rw::e) / sizeof(bool);
     std::printf("%d\t", id);
+    constexpr int nbs = sizeof(Rw::es) / sizeof(bool);
     put_bools(dbool_names, Rw::e, nb);
+    std::printf(" ");
+    put_bools(dbool_snames, Rw::es, nbs);
     if constexpr (requires { alignof(T); }) {
-        std::printf(" alignment_of=%lu", static_cast<unsigned long>(etl::alignment_of_v<T>));
+        std::printf(" alignment_of=%lu alignment_of::value=%lu", static_cast<unsigned long>(etl::alignment_of_v<T>),
+            static_cast<unsigned long>(etl::alignment_of<T>::value));
     }
     if constexpr (std::is_trivially_copyable_v<T> && requires { sizeof(T); }) {
-        std::printf(" has_unique_object_representations=%d", etl::has_unique_object_representations_v<T> ? 1 : 0);
+        std::printf(" has_unique_object_representations=%d has_unique_object_representations::value=%d",
+            etl::has_unique_object_representations_v<T> ? 1 : 0, etl::has_unique_object_representations<T>::value ? 1 : 0);
     }
     std::printf("\t");
     put_bools(dbool_names, Rw::s, nb);
+    std::printf(" ");
+    put_bools(dbool_snames, Rw::ss, nbs);
     if constexpr (requires { alignof(T); }) {
-        std::printf(" alignment_of=%lu", static_cast<unsigned long>(std::alignment_of_v<T>));
+        std::printf(" alignment_of=%lu alignment_of::value=%lu", static_cast<unsigned long>(std::alignment_of_v<T>),
+            static_cast<unsigned long>(std::alignment_of<T>::value));
     }
     if constexpr (std::is_trivially_copyable_v<T> && requires { sizeof(T); }) {
-        std::printf(" has_unique_object_representations=%d", std::has_unique_object_representations_v<T> ? 1 : 0);
+        std::printf(" has_unique_object_representations=%d has_unique_object_representations::value=%d",
+            std::has_unique_object_representations_v<T> ? 1 : 0, std::has_unique_object_representations<T>::value ? 1 : 0);
     }
     std::printf("\n");
 }
@@ -497,7 +553,10 @@ static void drow(int id)
 #define C15_STD_V2(t) std::t##_v<T1, T2>,
 #define C15_ETL_C2(t) etl::t<T1, T2>,
 #define C15_STD_C2(t) std::t<T1, T2>,
+#define C15_ETL_S2(t) etl::t<T1, T2>::value,
+#define C15_STD_S2(t) std::t<T1, T2>::value,
 static char const* const db_names[] = {C15_DB(C15_NAME) C15_DBCONCEPT(C15_NAME)};
+static char const* const db_snames[] = {C15_DB(C15_SNAME)};
 
 template <template <typename...> class Tr, typename... Ts>
 inline auto nary_type_or_none() -> std::string
@@ -513,6 +572,8 @@ template <typename T1, typename T2>
 struct DBRow {
     static constexpr bool e[] = {C15_DB(C15_ETL_V2) C15_DBCONCEPT(C15_ETL_C2)};
     static constexpr bool s[] = {C15_DB(C15_STD_V2) C15_DBCONCEPT(C15_STD_C2)};
+    static constexpr bool es[] = {C15_DB(C15_ETL_S2)};          // class-template forms
+    static constexpr bool ss[] = {C15_DB(C15_STD_S2)};
 };
 
 template <typename T1, typename T2, bool WithTypes>
@@ -521,15 +582,30 @@ static void dbrow(int id)
     using Rw        = DBRow<T1, T2>;
     constexpr int nb = sizeof(Rw::e) / sizeof(bool);
     std::printf("%d\t", id);
+    constexpr int nbs = sizeof(Rw::es) / sizeof(bool);
     put_bools(db_names, Rw::e, nb);
+    std::printf(" ");
+    put_bools(db_snames, Rw::es, nbs);
+    // reference item for the class of F-C15-is-trivially-constructible-ignores-args (the answer for empty Args)
+    std::printf(" is_trivially_default_constructible<T1>=%d", etl::is_trivially_default_constructible_v<T1> ? 1 : 0);
     if constexpr (WithTypes) {
+        // common_type of one, two and three types ([meta.trans.other]/4: unary = common_type<T, T>, n-ary folds left)
+        std::printf(" common_type1=%s", nary_type_or_none<etl::common_type, T1>().c_str());
+        std::printf(" common_type3=%s", nary_type_or_none<etl::common_type, T1, T2, T1>().c_str());
+        std::printf(" common_type3i=%s", nary_type_or_none<etl::common_type, T1, int, T2>().c_str());
         std::printf(" common_type=%s", nary_type_or_none<etl::common_type, T1, T2>().c_str());
         std::printf(" common_reference=%s", nary_type_or_none<etl::common_reference, T1, T2>().c_str());
         std::printf(" invoke_result=%s", nary_type_or_none<etl::invoke_result, T1, T2>().c_str());
     }
     std::printf("\t");
     put_bools(db_names, Rw::s, nb);
+    std::printf(" ");
+    put_bools(db_snames, Rw::ss, nbs);
+    std::printf(" is_trivially_default_constructible<T1>=%d", std::is_trivially_default_constructible_v<T1> ? 1 : 0);
     if constexpr (WithTypes) {
+        std::printf(" common_type1=%s", nary_type_or_none<std::common_type, T1>().c_str());
+        std::printf(" common_type3=%s", nary_type_or_none<std::common_type, T1, T2, T1>().c_str());
+        std::printf(" common_type3i=%s", nary_type_or_none<std::common_type, T1, int, T2>().c_str());
         std::printf(" common_type=%s", nary_type_or_none<std::common_type, T1, T2>().c_str());
         std::printf(" common_reference=%s", nary_type_or_none<std::common_reference, T1, T2>().c_str());
         std::printf(" invoke_result=%s", nary_type_or_none<std::invoke_result, T1, T2>().c_str());
